@@ -886,6 +886,18 @@ impl<W: Write> Interp<W> {
                     Err(e) => panicked = Some(msg_of(e)),
                 }
             }
+            "clone_into" => {
+                // Clone of queue q into queue `to` (fault engine: a panicking Clone of an item / priority)
+                let to = n(op, "to");
+                ev.insert("to".into(), json!(to));
+                let r = catch_unwind(AssertUnwindSafe(|| self.qs.get(&qid).expect("harness: clone of missing queue").clone()));
+                match r {
+                    Ok(q) => {
+                        self.qs.insert(to, q);
+                    }
+                    Err(e) => panicked = Some(msg_of(e)),
+                }
+            }
             "drop" => {
                 let q = self.qs.remove(&qid);
                 if let Err(e) = catch_unwind(AssertUnwindSafe(|| drop(q))) {
